@@ -52,15 +52,15 @@ func chainLabel(ev []srvEvent, k int) string {
 	if lastOK < 0 {
 		suffix = "-at-stream-start"
 	}
-	switch len(chain) {
-	case 0:
+	if len(chain) == 0 {
 		return "without-fault" + suffix
-	case 1:
-		return "after-" + chain[0] + suffix
-	case 2:
-		return "after-" + chain[1] + "-following-" + chain[0] + suffix
 	}
-	return "after-" + strings.Join(chain, "+") + suffix
+	// latest failure first (it decides where the client resumes), the earlier ones of the same chain in order of occurrence
+	lbl := "after-" + chain[len(chain)-1]
+	if len(chain) > 1 {
+		lbl += "-following-" + strings.Join(chain[:len(chain)-1], "+")
+	}
+	return lbl + suffix
 }
 
 func isGL(e srvEvent) bool { return e.Kind == evGLOK || e.Kind == evGLErr }
